@@ -169,33 +169,71 @@ Section SearchStream.
      its route in travel order, a reverse search lists it from the destination backwards. *)
   Definition travel (d : dir) (r : list nat) : list nat := match d with Forward => r | Reverse => rev r end.
 
-  (* None = accepted.  Reasons, most serious first:
+  (* ---- routes glued by Yen's algorithm: root path (a prefix of an earlier returned route) ++ spur path.  The spur
+     search starts at the spur vertex with no previous edge, so the pair at the junction is never shown to the
+     frontier model (class K_ksp_turn); every other pair lies inside one search and must be clean. ---- *)
+  Fixpoint prefix_eqb (n : nat) (a b : list nat) : bool :=
+    match n with
+    | 0 => true
+    | S k => match a, b with
+             | x :: a', y :: b' => Nat.eqb x y && prefix_eqb k a' b'
+             | _, _ => false
+             end
+    end.
+  (* indices i such that (l[i], l[i+1]) is bad *)
+  Fixpoint bad_positions (bad : nat -> nat -> bool) (l : list nat) (i : nat) : list nat :=
+    match l with
+    | a :: ((b :: _) as r) => List.app (if bad a b then [i] else []) (bad_positions bad r (S i))
+    | _ => []
+    end.
+  (* (some bad pair that is not at a possible junction, some bad pair at a possible junction); the pair at index i of
+     route r is at a possible junction iff r[0..i] is a prefix of a route returned before r *)
+  Fixpoint yens_scan (bad : nat -> nat -> bool) (earlier rs : list (list nat)) : bool * bool :=
+    match rs with
+    | [] => (false, false)
+    | r :: rest =>
+        let ps := bad_positions bad r 0 in
+        let junction := fun i => existsb (prefix_eqb (S i) r) earlier in
+        let '(x, y) := yens_scan bad (r :: earlier) rest in
+        (existsb (fun i => negb (junction i)) ps || x, existsb junction ps || y)
+    end.
+
+  (* mode: 0 = the query's algorithm itself, 1 = KspSingleVia over it, 2 = Yens over it.
+     None = accepted.  Reasons, most serious first:
        edge          a tree or route edge other than the query's own origin/destination edges is inadmissible
        turn          forward search: a restricted consecutive pair inside a route, not involving the query's own edges
+                     (Yen's: not at a root/spur junction)
        reverse-turn  the same in a reverse search (class K_reverse_turn: the model is shown the pair swapped)
        ksp-turn      the same in a route assembled by the single-via KSP algorithm (class K_ksp_turn)
+       yens-junction-turn  Yen's: restricted pairs only where a root path meets its spur path (class K_ksp_turn)
        query-edge    an edge-oriented query's own origin / destination edge is inadmissible   (class K_query_edges)
        query-turn    a restricted pair between a query edge and its neighbour in the route     (class K_query_edges) *)
-  Definition check_outcome (c : config FN) (qjson : json) (cut : option (list nat)) (ksp : bool) (q : query) (o : SR.outcome FN) : option string :=
+  Definition check_outcome (c : config FN) (qjson : json) (cut : option (list nat)) (mode : nat) (q : query) (o : SR.outcome FN) : option string :=
     if negb (String.eqb (SR.o_status FN o) "Ok") then None else
     let tree_edges := flat_map (fun t => map (fun x => let '(_, _, e, _, _, _) := x in e) t) (SR.o_trees FN o) in
     let routes := map (fun r => travel (SR.q_dir FN q) (SR.route_edges FN r)) (SR.o_routes FN o) in
     let all_edges := List.app tree_edges (concat routes) in
     if existsb (fun e => edge_bad c qjson cut e && negb (is_query_edge q e)) all_edges then Some "edge" else
-    if existsb (fun r => match first_bad_pair (fun a b => pair_bad c qjson cut a b && negb (is_query_edge q a) && negb (is_query_edge q b)) r with
-                         | Some _ => true | None => false end) routes
-    then Some (if ksp then "ksp-turn" else match SR.q_dir FN q with Forward => "turn" | Reverse => "reverse-turn" end) else
-    if existsb (fun e => edge_bad c qjson cut e) all_edges then Some "query-edge" else
-    if existsb (fun r => match first_bad_pair (pair_bad c qjson cut) r with Some _ => true | None => false end) routes
-    then Some "query-turn" else None.
+    match mode with
+    | 2 =>
+        let '(interior, junction) := yens_scan (pair_bad c qjson cut) [] routes in
+        if interior then Some "turn" else if junction then Some "yens-junction-turn" else None
+    | _ =>
+        if existsb (fun r => match first_bad_pair (fun a b => pair_bad c qjson cut a b && negb (is_query_edge q a) && negb (is_query_edge q b)) r with
+                             | Some _ => true | None => false end) routes
+        then Some (if Nat.eqb mode 1 then "ksp-turn" else match SR.q_dir FN q with Forward => "turn" | Reverse => "reverse-turn" end) else
+        if existsb (fun e => edge_bad c qjson cut e) all_edges then Some "query-edge" else
+        if existsb (fun r => match first_bad_pair (pair_bad c qjson cut) r with Some _ => true | None => false end) routes
+        then Some "query-turn" else None
+    end.
 
   Definition search_S (fuel : nat) (id : Z) (nested : bool) (c : config FN) (qjson : json) (cut : option (list nat))
-                      (ksp : bool) (w : world) (q : query) (o : SR.outcome FN) (detail : nat) : string :=
+                      (mode : nat) (w : world) (q : query) (o : SR.outcome FN) (detail : nat) : string :=
     line "S" id
-      (match check_outcome c qjson cut ksp q o with
+      (match check_outcome c qjson cut mode q o with
        | None => SR.show_outcome FN o detail
        | Some why =>
-           let ro := if ksp then "?" else
+           let ro := if negb (Nat.eqb mode 0) then "?" else
                      match build FN id_float nested c qjson cut with
                      | Ok m => if reopens fuel (with_frontier w m) q then "T" else "F"
                      | _ => "?"
